@@ -9,7 +9,9 @@ META = {
                    "is decided by z3 for all values on that path",
     "bounds": {"split": "byte strings of length 0..6, 1..4 slice lengths each 0..len+1",
                "blocks": "identifier size 1..3, capacity 1..4, n 0..7, slack 0..2 bytes",
-               "ints": "widths 0..6 bytes (SX) and 0..4/0..16 bytes (BVX bit-vectors), all values; xor operands up to 4/16 bytes, second operand shorter or equal"},
+               "ints": "widths 0..6 bytes (SX) and 0..4/0..16 bytes (BVX bit-vectors), all values; xor operands up to 4/16 bytes, second operand shorter or equal; "
+               "plus a native boundary family for the default-width encoder (256^k+d, k <= 40; 2^k+d, k <= 320), which "
+               "is where a floating-point width computation would go wrong"},
     "outside_bounds": "longer strings / larger geometries (the code does not branch on content beyond the "
                       "all-zero test); bytes.fromhex / bytes.hex / str.encode are CPython builtins = environment",
     "stubs": ["bytes/str codec builtins in convert_database_keyword_to_bytes are replaced by an opaque injective "
@@ -164,6 +166,35 @@ def h_int_minimal(P, S):
     except OverflowError:
         return True
     return True if w == 0 else S.fail("too-narrow-accepted")
+
+
+def int_family(P):
+    """native: the boundary family 256^k + d and 2^k + d of the default-width encoder (where a width computed with
+    floating-point logarithms goes wrong, which no integer encoding of the solver run can express)"""
+    from toolkit.bytes_utils import int_to_bytes, int_from_bytes
+    vals = set(range(0, 1 << 10))
+    for k in range(0, 41):
+        for d in (-256, -255, -1, 0, 1, 255, 256):
+            vals.add(256 ** k + d)
+    for k in range(0, 321):
+        for d in (-1, 0, 1):
+            vals.add((1 << k) + d)
+    bad, n = [], 0
+    for v in sorted(x for x in vals if x >= 0):
+        n += 1
+        want = (v.bit_length() + 7) // 8
+        try:
+            b = int_to_bytes(v)
+        except Exception as e:
+            bad.append({"args": {"x": str(v)}, "tag": "raise:" + type(e).__name__,
+                        "detail": "int_to_bytes(%d) raised %r" % (v, e)})
+            continue
+        if len(b) != want or int_from_bytes(b) != v:
+            bad.append({"args": {"x": str(v)}, "tag": "minimal-width-or-roundtrip",
+                        "detail": "int_to_bytes(%d) has %d bytes, minimal width %d, decodes to %d" % (v, len(b), want, int_from_bytes(b))})
+        if int_from_bytes(int_to_bytes(v, want + 2)) != v:
+            bad.append({"args": {"x": str(v)}, "tag": "explicit-width-roundtrip", "detail": ""})
+    return n, bad, [{"family": "256^k+d (k<=40), 2^k+d (k<=320), 0..1023", "values": n}]
 
 
 def h_xor(P, S):
@@ -352,6 +383,7 @@ def obligations(tier, seed):
     obs.append(twin("c17.ints.twin", "harness.c17", "h_ints", {"w": 2, "extra": 1, "twin": True}))
     for w in (range(0, 4) if tier == "quick" else range(0, 6)):
         obs.append(ob("c17.int_minimal.w%d" % w, "harness.c17", "h_int_minimal", {"w": w}))
+    obs.append(ob("c17.int_family", "harness.c17", "int_family", {}, engine="native"))
     for n in (range(0, 5) if tier == "quick" else range(0, 17)):
         for m in sorted({0, n // 2, n}):
             obs.append(ob("c17.xor.n%d.m%d" % (n, m), "harness.c17", "hb_xor", {"n": n, "m": m, "W": 16, "seed": seed},
